@@ -633,3 +633,158 @@ Theorem C03_treeset_relocator_create_before_reserve_refuted :
      o = Exc /\ map (fun e => (fst e, snd (snd e))) (blocks s') = [(1, 96); (0, 48)]).
 Proof. exact Effects7Proofs.create_before_reserve_refuted. Qed.
 Print Assumptions C03_treeset_relocator_create_before_reserve_refuted.
+
+(* ================================================================== part 8: the model instantiated at the facts read off the real code *)
+(* Gen_C03Facts.v is written on every run by props/C03/astfacts.py from the clang AST of the CURRENT headers; GenTie.v gives the
+   statement lists a meaning and uses it as the parameter of the hand model.  Reverting a fix makes these theorems unprovable. *)
+From C03 Require GenPrimsC03 Gen_C03Facts GenTie.
+Import GenPrimsC03 Gen_C03Facts GenTie.
+From Coq Require Import String.
+Local Open Scope string_scope.
+Local Open Scope Z_scope.
+
+(* 806b9fe: the catch blocks of the HashSet copy / initializer-list constructors as they are in the headers, followed by the
+   destructor of the delegating constructor: every schedule, nothing released twice, nothing left *)
+Theorem C03_gen_hashset_ctor_catch_no_leak :
+  forall mgr bufsz parsz crewsz sr n s f bs,
+    fresh_world s f bs -> (forall k, 0 <= k < Z.of_nat n -> f (sr, 0 + k) = true) ->
+    post (hs_copy_then_destroy mgr bufsz parsz crewsz hashset_ctor_fixed sr n) s
+         (fun _ s' => st_is s' f bs (nextb s')) (fun s' => st_is s' f bs (nextb s')).
+Proof. exact GenTie.gen_hashset_ctor_no_leak. Qed.
+Print Assumptions C03_gen_hashset_ctor_catch_no_leak.
+
+Theorem C03_gen_treeset_ctor_catch_no_leak :
+  forall mgr crewsz nodesz tparsz sr n s f bs,
+    fresh_world s f bs -> (forall k, 0 <= k < Z.of_nat n -> f (sr, 0 + k) = true) ->
+    post (ts_copy_then_destroy mgr crewsz nodesz tparsz treeset_ctor_fixed sr n) s
+         (fun _ s' => st_is s' f bs (nextb s')) (fun s' => st_is s' f bs (nextb s')).
+Proof. exact GenTie.gen_treeset_ctor_no_leak. Qed.
+Print Assumptions C03_gen_treeset_ctor_catch_no_leak.
+
+Theorem C03_gen_treeset_ctor_catch_any_tree_no_leak :
+  forall mgr nodesz parsz crewsz src kr t s f bs,
+    rows_world s f bs src kr ->
+    post (tsn_copy_then_destroy mgr nodesz parsz crewsz treeset_ctor_fixed src t) s
+         (fun _ s' => st_is s' f bs (nextb s')) (fun s' => st_is s' f bs (nextb s')).
+Proof. exact GenTie.gen_treeset_ctor_any_tree_no_leak. Qed.
+Print Assumptions C03_gen_treeset_ctor_catch_any_tree_no_leak.
+
+(* 91ea186: the catch block of DataTable::pvFill as it is in the headers *)
+Theorem C03_gen_datatable_fill_catch_no_leak :
+  forall mgr rsz crewsz colsf haskey linkfail stride, 0 <= stride -> forall sr kr n s f bs,
+    rows_world s f bs sr kr ->
+    post (dt_copy_then_destroy mgr rsz crewsz colsf haskey linkfail stride datatable_fill_fixed sr kr n) s
+         (fun _ s' => st_is s' f bs (nextb s')) (fun s' => st_is s' f bs (nextb s')).
+Proof. exact GenTie.gen_datatable_fill_no_leak. Qed.
+Print Assumptions C03_gen_datatable_fill_catch_no_leak.
+
+(* 84c9298: one row of the HashMultiMap copy constructor as it is in the headers (value array, try Insert, catch Clear) *)
+Theorem C03_gen_multimap_copy_row_no_leak :
+  forall mgr rsz haskey linkfail cols sr sb kr i s f bs nb,
+    0 <= i -> st_is s f bs nb -> dlist bs nb -> (forall l, fst l = nb -> f l = false) ->
+    (forall k, 0 <= k < Z.of_nat cols -> f (sr, sb + 0 + k) = true) -> f (kr, i) = true ->
+    post (hmm_insert_row mgr rsz haskey linkfail hmm_row_cleared cols sr sb kr i) s
+         (fun row s' => row = nb /\ st_is s' (fun l => inrng nb 0 (cols + keyw haskey) l || f l) ((nb, (mgr, rsz)) :: bs) (nb + 1))
+         (fun s' => exists nb', nb <= nb' /\ st_is s' f bs nb').
+Proof. exact GenTie.gen_multimap_copy_row_no_leak. Qed.
+Print Assumptions C03_gen_multimap_copy_row_no_leak.
+
+Theorem C03_multimap_row_not_cleared_refuted :
+  exists sch, let '(o, s') := hmm_insert_row 1 40 true true false 2 (-1) 0 (-2) 0 (rows_init sch) in
+              o = Exc /\ blocks s' <> [].
+Proof. exact GenTie.multimap_row_not_cleared_refuted. Qed.
+Print Assumptions C03_multimap_row_not_cleared_refuted.
+
+(* c7fda03: the `dstCount == 0` branch of TreeSet::MergeTo as it is in the headers: the node params travel with the crew *)
+Theorem C03_gen_merge_into_empty_no_leak :
+  forall mgr crewsz parsz nodesz k m s f bs,
+    st_is s f bs (nextb s) -> dlist bs (nextb s) ->
+    post (merge_scn mgr crewsz parsz nodesz mergeto_crew_travels k m) s
+         (fun _ s' => st_is s' f bs (nextb s')) (fun s' => st_is s' f bs (nextb s')).
+Proof. exact GenTie.gen_merge_into_empty_no_leak. Qed.
+Print Assumptions C03_gen_merge_into_empty_no_leak.
+
+(* 7f37c9f: the relinking statements of MemPool::MergeFrom as they are in the headers *)
+Theorem C03_gen_mempool_merge_buffers_returned_once :
+  forall mgr bufsz a b s f bs,
+    st_is s f bs (nextb s) -> dlist bs (nextb s) ->
+    post (pools_scn mgr bufsz merge_links_inserted a b) s (fun _ s' => st_is s' f bs (nextb s')) (fun s' => st_is s' f bs (nextb s')).
+Proof. exact GenTie.gen_mempool_merge_buffers_returned_once. Qed.
+Print Assumptions C03_gen_mempool_merge_buffers_returned_once.
+
+(* seed 2-b: Relocator::CreateNode and ~Relocator as they are in the headers: any script, any growth policy, any schedule *)
+Theorem C03_gen_relocator_insertion_no_leak :
+  forall (mgr : Z) (esz : atag -> Z) (grow : nat -> nat) (f : loc -> bool) (g : bview) (nb0 : Z),
+    (forall b, nb0 <= b -> g b = None) ->
+    forall ops s nb,
+    nb0 <= nb -> st2 s f g nb ->
+    olds_ok mgr g nb0 (rev (olds_of (flat_map (expand true) ops))) ->
+    post (insertion mgr esz grow relocator_good ops) s
+         (fun _ s' => exists r nb', nb0 <= nb' /\ r_olds r = rev (olds_of (flat_map (expand true) ops)) /\ st2 s' f (done_view mgr g r) nb')
+         (fun s' => exists nb', nb0 <= nb' /\ st2 s' f g nb').
+Proof. exact GenTie.gen_relocator_insertion_no_leak. Qed.
+Print Assumptions C03_gen_relocator_insertion_no_leak.
+
+(* f8cb4ff: select_on_container_copy_construction with the noexcept flag and the body it has in the headers: copying a container never
+   terminates; a failed allocation is an ordinary exception that leaves nothing behind *)
+Theorem C03_gen_pool_allocator_copy_never_terminates :
+  forall mgr poolsz s f g nb,
+    st2 s f g nb -> g nb = None ->
+    post (container_copy socc_noexcept socc_allocates mgr poolsz) s (fun _ s' => exists nb', st2 s' f g nb') (fun s' => exists nb', st2 s' f g nb').
+Proof. exact GenTie.gen_pool_allocator_copy_never_terminates. Qed.
+Print Assumptions C03_gen_pool_allocator_copy_never_terminates.
+
+Theorem C03_noexcept_allocating_refuted :
+  exists sch, fst (container_copy true true 1 64 (mkR (fun _ => Raw) [] sch 0 [])) = Stuck.
+Proof. exact GenTie.noexcept_allocating_refuted. Qed.
+Print Assumptions C03_noexcept_allocating_refuted.
+
+(* fc18ee9: MemPool::Data::Swap as it is in the headers: after a table swap every pool still reaches its manager through a live crew *)
+Theorem C03_gen_pool_swap_manager_pointers_follow :
+  forall equal : bool,
+  let '(o, s') := swap_scn data_swap_unconditional equal 1 24 512 (mkR (fun _ => Raw) [] [] 0 []) in
+  o = Val tt /\ blocks s' = [].
+Proof. exact GenTie.gen_pool_swap_manager_pointers_follow. Qed.
+Print Assumptions C03_gen_pool_swap_manager_pointers_follow.
+
+Theorem C03_pool_swap_skipping_equal_managers_refuted :
+  fst (swap_scn false true 1 24 512 (mkR (fun _ => Raw) [] [] 0 [])) = Stuck.
+Proof. exact GenTie.pool_swap_skipping_equal_managers_refuted. Qed.
+Print Assumptions C03_pool_swap_skipping_equal_managers_refuted.
+
+(* c72d55b: the root-collapse loop of TreeSet::pvRebalance as it is in the headers, then the first read of the climbing loop:
+   no node is read after it was destroyed, whether `node` was the old root or its child *)
+Theorem C03_gen_rebalance_collapse_no_use_after_free :
+  (let '(o, s') := collapse_scn rebalance_collapse rebalance_climb_reads 0 collapse_state in o = Val tt /\ map fst (blocks s') = [1]) /\
+  (let '(o, s') := collapse_scn rebalance_collapse rebalance_climb_reads 1 collapse_state in o = Val tt /\ map fst (blocks s') = [1]).
+Proof. exact GenTie.gen_rebalance_collapse_no_use_after_free. Qed.
+Print Assumptions C03_gen_rebalance_collapse_no_use_after_free.
+
+Theorem C03_rebalance_collapse_old_refuted :
+  fst (collapse_scn [SSet (PVar "mRootNode") (PChild0 (PVar "mRootNode")); SDestroyP (PParent (PVar "mRootNode")); SSetParentNull (PVar "mRootNode")]
+                    [SLocal "parentNode" (PParent (PVar "node"))] 0 collapse_state) = Stuck.
+Proof. exact GenTie.rebalance_collapse_old_refuted. Qed.
+Print Assumptions C03_rebalance_collapse_old_refuted.
+
+Theorem C03_generated_parameters :
+  hashset_ctor_fixed = true /\ treeset_ctor_fixed = true /\ datatable_fill_fixed = true /\ hmm_row_cleared = true /\
+  mergeto_crew_travels = true /\ merge_links_inserted = true /\ relocator_good = true /\ data_swap_unconditional = true /\
+  socc_noexcept && socc_allocates = false.
+Proof. exact GenTie.generated_parameters. Qed.
+Print Assumptions C03_generated_parameters.
+
+(* fc18ee9 on TRANSLATED code: MemPool::Data::Swap (Gen_MemPoolDataC03.v, tools/cxx2coq.py) exchanges the managers whatever their
+   equality test answers, and the hand model's table swap takes its manager references from it *)
+From C03 Require Gen_MemPoolDataC03 GenPoolSwap.
+Theorem C03_gen_data_swap_exchanges_always :
+  forall (m c m' c' : Z), Gen_MemPoolDataC03.Swap m c m' c' = (m', c', m, c).
+Proof. exact GenPoolSwap.gen_data_swap_exchanges_always. Qed.
+Print Assumptions C03_gen_data_swap_exchanges_always.
+
+Theorem C03_table_swap_refines_generated :
+  forall (equal : bool) (a b : tbl),
+  let '(a', b') := tbl_swap true equal a b in
+  let '(m, _, m', _) := Gen_MemPoolDataC03.Swap (t_mgrref a) 0 (t_mgrref b) 0 in
+  t_mgrref a' = m /\ t_mgrref b' = m' /\ t_crew a' = t_crew b /\ t_crew b' = t_crew a.
+Proof. exact GenPoolSwap.table_swap_refines_generated. Qed.
+Print Assumptions C03_table_swap_refines_generated.
